@@ -644,6 +644,7 @@ func runC05(c *Ctx) {
 	ruleCodecLimits(c, p, "C05.codec-limits")
 	ruleCompressibleArg(c, p, "C05.compressible")
 	ruleCompressibleTable(c, p, "C05.compressible-table")
+	ruleValidateBeforeAlloc(c, p, "C05.validate-first")
 
 	// ---- C05.frame
 	ruleFrameLayout(c, p, "C05.frame", rb, wr)
